@@ -60,6 +60,7 @@ EXN = {"AssertionError": 1, "IndexError": 2, "KeyError": 3, "UnicodeDecodeError"
 EPOCH_NUM = {"initial": 0, "0rtt": 1, "handshake": 2, "1rtt": 3}
 V1 = 1
 V2 = 0x6B3343CF
+RETRY_SCID = bytes(range(0x60, 0x68))
 
 
 # ------------------------------------------------------------------------------------------
@@ -401,6 +402,10 @@ class Lab:
         elif k == "sh":        # ServerHello bytes -> client in first flight
             sh = bytes.fromhex(op[1])
             self.send_long(b"\x06" + varint(0) + varint(len(sh)) + sh, {})
+        elif k == "retry":
+            # ["retry", token_len, opts]: a Retry packet with a valid integrity tag (computable by anybody who saw the
+            # client's Initial) and a token of token_len bytes, to a client in first flight; its SCID is RETRY_SCID
+            self.send_retry(int(op[1]), dict(op[2]) if len(op) > 2 else {})
         elif k == "sh_nopump":  # ServerHello bytes -> client in first flight, datagrams_to_send() NOT called afterwards
             sh = bytes.fromhex(op[1])
             self.send_long(b"\x06" + varint(0) + varint(len(sh)) + sh, dict(op[2] if len(op) > 2 else {}, nopump=True))
@@ -423,6 +428,25 @@ class Lab:
         else:
             raise ValueError("unknown op %r" % (k,))
 
+    def send_retry(self, token_len, o):
+        from aioquic.quic.packet import get_retry_integrity_tag
+        pk = self.ch_pkt
+        version = o.get("version", V1)
+        tbits = 0 if version == V2 else 3
+        scid = RETRY_SCID
+        dcid = pk.scid if not o.get("wrong_dcid") else bytes(8)
+        body = bytes([0xC0 | (tbits << 4)]) + version.to_bytes(4, "big") + bytes([len(dcid)]) + dcid + bytes([len(scid)]) + scid
+        body += bytes(o.get("fill", 0x5A) for _ in range(token_len))
+        tag = get_retry_integrity_tag(body, pk.dcid, version=version if version in (V1, V2) else V1)
+        if o.get("bad_tag"):
+            tag = bytes(16)
+        data = body + tag
+        self.last_datagram = data
+        if o.get("nopump"):
+            self.subject.receive_datagram(data, self.peer_addr())
+        else:
+            self.pair.deliver_now(data, self.peer_addr(), self.subject)
+
     def send_long(self, payload, o):
         pk = self.ch_pkt
         if self.side == "server":
@@ -437,6 +461,8 @@ class Lab:
                 keycid = dcid
         if "scid" in o:
             scid = bytes.fromhex(o["scid"])
+        if "keycid" in o:
+            keycid = bytes.fromhex(o["keycid"])
         pkt = build_long(o.get("ptype", 0), dcid, scid, payload, keycid=keycid, is_client=is_client,
                          pn=o.get("pn", 0 if self.side == "server" else 1), version=o.get("version", V1),
                          token=bytes.fromhex(o.get("token", "")), reserved=o.get("reserved", 0),
@@ -1364,6 +1390,11 @@ def _w_ack():
     return {"spec": spec("client", "connected", 33), "ops": ops}
 
 
+def _w_retry(n, bad="1f"):
+    o = {"keycid": RETRY_SCID.hex(), "scid": RETRY_SCID.hex(), "pn": 1}
+    return {"spec": spec("client", "firstflight", 34), "ops": [["retry", n], ["long", bad, o], ["adv", 0.05]]}
+
+
 WITNESSES = {
     "firstflight": {"spec": spec("server", "firstflight", 30), "ops": [["dg", (b"\x40" + bytes(30)).hex()]]},
     "firstflight_0rtt": {"spec": spec("server", "firstflight", 30),
@@ -1372,6 +1403,10 @@ WITNESSES = {
     "ncid": _w_ncid(),
     "ack_ranges": _w_ack(),
     "close_reason": {"spec": spec("client", "evilcert", 505, sans=14, san_len=50), "ops": [["run"]]},
+    # R1: Retry with an oversized token, then an Initial packet (keys derive from the Retry's SCID) with an unknown frame type:
+    # the close branch of datagrams_to_send() raises QuicPacketBuilderStop (start_packet / start_frame)
+    "retry_token_close": _w_retry(1300),
+    "retry_token_close_frame": _w_retry(1140),
 }
 
 
@@ -1465,6 +1500,10 @@ def run(ctx):
 
     # 4. (c) hostile TLS
     run_tls(ctx, rng, stats, report)
+
+    # 5. Retry packets with token sizes around what an Initial header can carry, followed by something that makes the
+    #    client close (or by the application's own close()): the close branch of datagrams_to_send (finding R1)
+    run_retry(ctx, rng, stats, report)
 
     extra = {"volume": {k: (dict(v) if isinstance(v, collections.Counter) else v) for k, v in stats.items()},
              "packets_total": stats["datagrams"] + stats["protected_packets"] + stats["tls_messages"]}
@@ -1622,6 +1661,36 @@ def run_ack_games(ctx, rng, n, stats, report):
         probs = judge(lab)
         if probs:
             report(probs, {"spec": sp, "ops": ops}, "ack-games")
+
+
+def run_retry(ctx, rng, stats, report):
+    sizes = [0, 1, 16, 100, 600, 1100, 1129, 1130, 1131, 1140, 1150, 1155, 1156, 1200, 1300, 1452, 5000, 60000]
+    followups = [("bad_frame", "1f"), ("reserved", "01"), ("empty", ""), ("ccf", "1c0a0000"), ("api_close", None), ("none", None)]
+    n = 0
+    for size in sizes:
+        for name, payload in (followups if ctx.thorough else rng.sample(followups, 3)):
+            o = {"keycid": RETRY_SCID.hex(), "scid": RETRY_SCID.hex(), "pn": 1}
+            if name == "reserved":
+                o["reserved"] = 1
+            ropts = {}
+            x = rng.random()
+            if x < 0.1:
+                ropts["bad_tag"] = 1
+            elif x < 0.2:
+                ropts["wrong_dcid"] = 1
+            elif x < 0.3:
+                ropts["version"] = V2
+            ops = [["retry", size, ropts]]
+            if payload is not None:
+                ops.append(["long", payload, o])
+            elif name == "api_close":
+                ops.append(["api", "close"])
+            ops += [["adv", 0.05], ["adv", 1.0]]
+            case = {"spec": spec("client", "firstflight", 40 + rng.randrange(4)), "ops": ops}
+            _, probs = run_ops(case)
+            n += 1
+            report(probs, case, "retry-token:%d:%s" % (size, name))
+    stats["retry_worlds"] = n
 
 
 def run_tls(ctx, rng, stats, report):
